@@ -71,6 +71,12 @@ int main(int argc, char** argv)
 		OP("integer_widths", int_widths(i))
 		OP("color", pv(glm::convertLinearToSRGB(glm::fract(v3))); pv(glm::convertSRGBToLinear(glm::fract(v3))); pv(glm::rgbColor(glm::hsvColor(glm::fract(v3) + 0.01f))))
 		OP("double", pd(glm::round((double)a * 1.000001)); pd(glm::mix((double)a, (double)b, 0.3)); pd(glm::length(glm::dvec3(v3))); pd(glm::log2(std::fabs((double)a) + 0.1)); pd(glm::asinh((double)a)); pd(glm::fmin((double)a, (double)b, (double)c)))
+		// shape conversions and constructors from columns / scalars: under GLM_FORCE_CXX98 / CXX03 a second body of each constructor is compiled
+		OP("ctor_conversions", { glm::mat4x3 a43(v3, w3, v3 + w3, w3 - v3); glm::mat3x4 a34(v, w, v + w); glm::mat2x4 a24(v, w); glm::mat4x2 a42(glm::vec2(v), glm::vec2(w), glm::vec2(v3.z, w3.z), glm::vec2(a, d)); glm::mat2 a22(a, b, c, d); glm::mat3 a33(M);
+			pm(glm::mat4(a43)); pm(glm::mat4(a34)); pm(glm::mat4(a24)); pm(glm::mat4(a42)); pm(glm::mat4(a22)); pm(glm::mat4(a33)); pm(glm::mat3(a43)); pm(glm::mat3(a34)); pm(glm::mat3(a24)); pm(glm::mat3(a42)); pm(glm::mat3(a22)); pm(glm::mat3(M));
+			glm::mat4x3 b43(M); glm::mat3x4 b34(M); glm::mat2x4 b24(a43); glm::mat4x2 b42(a34); glm::mat2x3 b23(a42); glm::mat3x2 b32(a24); glm::mat2 b22(a43);
+			for (int cc = 0; cc < 4; ++cc) { pv(b43[cc]); pf(b42[cc].x); pf(b42[cc].y); } for (int cc = 0; cc < 3; ++cc) { pv(b34[cc]); pf(b32[cc].x); pf(b32[cc].y); } for (int cc = 0; cc < 2; ++cc) { pv(b24[cc]); pv(b23[cc]); pf(b22[cc].x); pf(b22[cc].y); }
+			pm(glm::mat4(a, b, c, d, b, c, d, a, c, d, a, b, d, a, b, c)); pm(glm::mat4(a)); pm(glm::mat3(v3, w3, v3)); pv(glm::vec4(glm::vec2(v), glm::vec2(w))); pv(glm::vec4(a, w3)); pv(glm::vec4(glm::vec2(v), c, d)); pv(glm::vec3(v)); })
 		OP("ctor", { glm::vec4 z(1.f); glm::vec4 y(v3, 2.f); glm::mat3 m(2.f); glm::quat r = glm::quat::wxyz(1.f, 0.f, 0.f, 0.f); pv(z + y); pm(m); pq(r); std::printf(" %d %d %d", (int)z.length(), (int)m.length(), (int)r.length()); })
 	}
 	return 0;
